@@ -40,10 +40,14 @@ def a_world(n, script, restricted, fast=False):
             'restricted': restricted, 'fast': fast}
 
 
-def gated_world(ts_gated, ts_toggler, pattern, script):
-    """p0 has _condition on ('gate','on'); p1 sets the gate by script."""
+def gated_world(ts_gated, ts_toggler, pattern, script, in_defaults=False):
+    """p0 has _condition on ('gate','on') - given to the constructor, or
+    declared in the class defaults; p1 sets the gate by script."""
     p0 = sched.probe_spec('p0', ts_gated, 'path')
-    p0['_condition'] = ('gate', 'on')
+    if in_defaults:
+        p0['cls'] = 'PC'
+    else:
+        p0['_condition'] = ('gate', 'on')
     p0['schema']['gate'] = {
         'on': {'_default': True, '_updater': 'set', '_emit': True}}
     upd = {'$n': {k: {'gate': {'on': v}, 'priv': {'tok': '$tok', 'num': 1,
@@ -63,7 +67,8 @@ def gated_world(ts_gated, ts_toggler, pattern, script):
                 'p1': {'priv': ('s1',), 'shared': ('shared',),
                        'gate': ('gate',)}},
             'script': list(script), 'family': 'G',
-            'gated': (ts_gated, ts_toggler, tuple(pattern))}
+            'gated': (ts_gated, ts_toggler, tuple(pattern)),
+            'in_defaults': in_defaults}
 
 
 def a_jobs(ctx, restricted=True):
@@ -80,6 +85,7 @@ def a_jobs(ctx, restricted=True):
                 for sc in ([('update', 3)],
                            [('run_for', 1.5, False), ('update', 2)]):
                     jobs.append(('G', tg, tt, pat, sc))
+                jobs.append(('G', tg, tt, pat, [('update', 3)], True))
     else:
         for n, bound in ((1, 3), (2, 3)):
             for sc in A_SCRIPTS_THOROUGH:
@@ -92,6 +98,8 @@ def a_jobs(ctx, restricted=True):
             for pat in pats:
                 for sc in sched.scripts(1):
                     jobs.append(('G', tg, tt, pat, sc))
+                    if len(sc) == 1:
+                        jobs.append(('G', tg, tt, pat, sc, True))
     # split A jobs by first deviation so that they parallelise
     out = []
     for job in jobs:
@@ -149,7 +157,8 @@ def run_one_a(spec, prefix, acc, monitors):
     n_tok = sum(len(v) for v in p.invokes.values())
     n_false = sum(1 for cs in p.conds.values() for c in cs if not c['res'])
     acc.case(key=(spec['family'], spec.get('n'), spec['script'],
-                  tuple(oracle.choices), spec.get('gated')),
+                  tuple(oracle.choices), spec.get('gated'),
+                  spec.get('in_defaults')),
              outcome=f'{spec["family"]}:tokens={min(n_tok, 12)}:'
                      f'false={min(n_false, 6)}:'
                      f'err={type(ex.error[2]).__name__ if ex.error else 0}',
@@ -174,8 +183,9 @@ def run_a(job, acc, monitors):
         acc.counters['A_executions'] += cnt
         acc.maximum('completed_deviation_bound', bound)
     else:
-        _, tg, tt, pat, script = job
-        spec = gated_world(tg, tt, pat, script)
+        _, tg, tt, pat, script = job[:5]
+        spec = gated_world(tg, tt, pat, script,
+                           in_defaults=len(job) > 5 and job[5])
         spec['restricted'] = False
         run_one_a(spec, [], acc, monitors)
         acc.counters['G_executions'] += 1
